@@ -195,13 +195,14 @@ type world struct {
 	alwaysRetry bool
 	// injection, when set, runs once at the next lock-held injection
 	// point (operation name generation, learner callbacks).
-	doneHook     func()
-	doneHookRan  bool
-	injection    func()
-	injectionRan bool
-	execAuthGate gate
-	killAuthGate gate
-	pendingKills []*pendingKill
+	slowFetchTarget time.Time // not zero: the clock will read this when the Execute under way looks at the scheduler's state
+	doneHook        func()
+	doneHookRan     bool
+	injection       func()
+	injectionRan    bool
+	execAuthGate    gate
+	killAuthGate    gate
+	pendingKills    []*pendingKill
 
 	m *model
 }
@@ -849,6 +850,42 @@ func (w *world) stepSyncRacingDrainChange() bool {
 		w.doneHook = nil
 		rec.Out = "not raced"
 	}
+	return true
+}
+
+// stepExecuteSlowFetch: time passes while Execute fetches the action from
+// storage, across the end of the start-up grace period. The scheduler has
+// to judge the request by the time at which it looks at its state (after
+// the fetch), not by the time the request arrived. Only used while nothing
+// can expire in between: no worker has synchronized yet, no operation
+// exists, no timer is pending.
+func (w *world) stepExecuteSlowFetch(instancePool []string) bool {
+	graceEnd := w.m.startAt.Add(queueTimeout)
+	if !w.clk.Now().Before(graceEnd) || len(w.clk.pendingTimers()) > 0 || len(w.m.ops) > 0 {
+		return false
+	}
+	for _, wk := range w.workers {
+		if wk.everSync {
+			return false
+		}
+	}
+	target := graceEnd.Add(rapid.SampledFrom([]time.Duration{-time.Nanosecond, 0, time.Nanosecond, time.Second}).Draw(w.rt, "pastGraceEnd"))
+	if !target.After(w.clk.Now()) {
+		return false
+	}
+	w.record("slowFetch", fmt.Sprintf("the clock reaches %s while the next Execute fetches its action", target.Sub(w.m.startAt)))
+	w.slowFetchTarget = target
+	w.cas.mu.Lock()
+	w.cas.beforeGet = func() { w.clk.jumpTo(target) }
+	w.cas.mu.Unlock()
+	w.stepExecute(instancePool)
+	w.slowFetchTarget = time.Time{}
+	w.cas.mu.Lock()
+	w.cas.beforeGet = nil
+	w.cas.mu.Unlock()
+	w.clk.jumpTo(target)
+	w.m.label("time_passed_during_action_fetch")
+	w.quiesce()
 	return true
 }
 
